@@ -6,8 +6,9 @@ gen/c11.py (fail-closed AST call-graph walk of every inbound connection-layer ha
 Tie: real loopback Transport pairs (both roles) whose wire passes through a harness-controlled relay
 (a latency-controlled network: bytes from B to A can be held and released).  Per cell: B's message M is
 put in flight and held, A sends its KEXINIT (renegotiate_keys from a user thread, or the packetizer's
-re-key request picked up by the transport thread), a user thread of A sends channel data, M and B's key
-exchange traffic are released.  A recording packetizer gives A's outbound type trace, a recording
+re-key request picked up by the transport thread), a user thread of A calls chan.sendall at a switch point placed
+right after A's KEXINIT has been written (the KEXINIT sender is paused inside the recording packetizer
+until the user thread has reached the gate or the wire), M and B's key exchange traffic are released.  A recording packetizer gives A's outbound type trace, a recording
 `_send_user_message` tells which thread went through the gate with the flag in which state.  The canonical
 outcome of every cell is compared with the model's `run_cell` (vm_compute over the generated table).
 Oracle (independent of the model): no message >= 50 between A's KEXINIT and A's NEWKEYS, the transport
@@ -162,9 +163,17 @@ def make_classes():
             self.c11_lock = threading.Lock()
 
         def send_message(self, data):
+            t = data.asbytes()[0]
             with self.c11_lock:
-                self.c11_log.append(("out", data.asbytes()[0], threading.current_thread()))
-                return super().send_message(data)
+                self.c11_log.append(("out", t, threading.current_thread()))
+                r = super().send_message(data)
+            if t == 20:
+                # switch point of the deterministic schedule: own KEXINIT is on the wire and the sender has
+                # not yet run the statement that follows the write; the harness may run a user thread here
+                hook = self.__dict__.pop("c11_kexinit_hook", None)
+                if hook is not None:
+                    hook()
+            return r
 
         def read_message(self):
             t, m = super().read_message()
@@ -456,6 +465,22 @@ def run_cell(role, name, init, rng, user_send=True):
                 us["exc"] = e
 
         threads = []
+        can_send = not (name in ("close", "chan-failure"))
+        ut = threading.Thread(target=user, daemon=True)
+
+        def at_kexinit():
+            # schedule: [A: ... write KEXINIT] -> [user thread: chan.sendall up to the gate / the wire] -> [A: rest
+            # of _send_kex_init].  With the flag cleared before the write the user thread finds it clear and waits.
+            ut.start()
+            threads.append(ut)
+            _wait(lambda: any(t == 94 and not tt for t, tt, _, _ in s.gate()), 3.0)
+            ent = [flag for t, tt, flag, _ in s.gate() if t == 94 and not tt]
+            obs["user_flag_at_gate"] = ent[0] if ent else None
+            if ent and ent[0]:
+                _wait(lambda: 94 in [t for t, _ in s.out_trace()], 3.0)
+
+        if user_send and can_send:
+            A.packetizer.c11_kexinit_hook = at_kexinit
         if init == "explicit":
             threads.append(threading.Thread(target=renegotiate, daemon=True))
         else:
@@ -466,10 +491,8 @@ def run_cell(role, name, init, rng, user_send=True):
         if not _wait(lambda: 20 in [t for t, _ in s.out_trace()]):
             raise RuntimeError("A did not send KEXINIT")
         obs["kexinit_on_tt"] = [tt for t, tt in s.out_trace() if t == 20][0]
-        can_send = not (name in ("close", "chan-failure"))
-        if user_send and can_send:
-            ut = threading.Thread(target=user, daemon=True)
-            ut.start()
+        if user_send and can_send and not ut.is_alive() and ut.ident is None:
+            ut.start()          # the switch point was not reached (cannot happen unless send_message is bypassed)
             threads.append(ut)
             _wait(lambda: any(t == 94 and not tt for t, tt, _, _ in s.gate()), 3.0)
         if name == "keepalive-tick":
